@@ -55,7 +55,7 @@ func suiteC17(r *Run) {
 	r.Rule = "nesting depths 1..5, every nil/pass/short-circuit/alter-options combination per layer (unary and stream interceptor independently), base = real grpc.ClientConn over bufconn, in-process channel, HTTP channel, recording channel; one unary call and one stream creation per configuration; compared: ordered event logs incl. the class of the cc argument (root / nil / other) and the options count reaching the base. Non-trivial: depth >= 2 or a layer with a nil interceptor; distinct by (base, layers)."
 	r.Assumptions = append(r.Assumptions, "grpc.ClientConn over bufconn as the standard connection")
 	rng := r.Rng
-	behs := []string{"-", "p", "s", "a", "d", "m"} // none, pass, short-circuit, add an option, drop all options, forward under another method name
+	behs := []string{"-", "p", "s", "a", "d", "m", "c"} // none, pass, short-circuit, add an option, drop all options, forward under another method name, short-circuit with the bare context error
 
 	bb := newBufconn(&scriptServer{})
 	defer bb.stop()
@@ -99,7 +99,7 @@ func suiteC17(r *Run) {
 		ch := base
 		var wrappers []grpc.ClientConnInterface
 		for i := 0; i < depth; i++ {
-			l := layer{behs[rng.Intn(6)], behs[rng.Intn(6)]}
+			l := layer{behs[rng.Intn(7)], behs[rng.Intn(7)]}
 			if rng.Chance(50) {
 				l = layer{"p", "p"}
 			}
@@ -123,6 +123,8 @@ func suiteC17(r *Run) {
 					switch beh {
 					case "s":
 						return errShort
+					case "c":
+						return context.Canceled
 					case "a":
 						opts = append(opts, grpc.WaitForReady(false))
 					case "d":
@@ -140,6 +142,8 @@ func suiteC17(r *Run) {
 					switch beh {
 					case "s":
 						return nil, errShort
+					case "c":
+						return nil, context.Canceled
 					case "a":
 						opts = append(opts, grpc.WaitForReady(false))
 					case "d":
@@ -192,8 +196,8 @@ func suiteC17(r *Run) {
 			}
 			cancel()
 			res := "ok"
-			if errors.Is(err, errShort) {
-				res = "short"
+			if err == errShort || err == context.Canceled {
+				res = "short" // the interceptor's own error value, handed back as it is
 			} else if err != nil {
 				res = "err"
 			}
@@ -214,7 +218,7 @@ func suiteC17(r *Run) {
 					continue
 				}
 				want = append(want, i)
-				if b == "s" {
+				if b == "s" || b == "c" {
 					break
 				}
 			}
@@ -253,7 +257,7 @@ func suiteC17(r *Run) {
 				}
 				wantOpts = append(wantOpts, sprintf("%s,opts=%d)", curM, cur))
 				switch b {
-				case "s":
+				case "s", "c":
 					stopped = true
 				case "a":
 					cur++
@@ -285,6 +289,25 @@ func suiteC17(r *Run) {
 				}
 				r.Violate(sig, "the continuation passed to an interceptor reaches the next layer exactly as the interceptor calls it: method name and options passed through unchanged",
 					sprintf("%s call with %d caller options, layers (inner to outer) %v: %s seen %v, expected %v", kind, ncopts, lspec, what, gotOpts, wantOpts), caseDesc, ans)
+			}
+			// results: what the outermost short-circuiting interceptor returned is what the caller gets — the same value
+			wantErr := error(nil)
+			for i := depth - 1; i >= 0; i-- {
+				b := layers[i].u
+				if kind == "stream" {
+					b = layers[i].s
+				}
+				if b == "s" {
+					wantErr = errShort
+					break
+				} else if b == "c" {
+					wantErr = context.Canceled
+					break
+				}
+			}
+			if wantErr != nil && err != wantErr {
+				r.Violate("client-intercept/result-not-passed-through-"+kind, "with the method name, messages, options and results passed through unchanged",
+					sprintf("%s call, layers (inner to outer) %v: the interceptor returned the error value %q; the caller got %T %q", kind, lspec, wantErr, err, fmt.Sprint(err)), caseDesc, ans)
 			}
 			if fmt.Sprint(got) != fmt.Sprint(want) {
 				r.Violate("client-intercept/wrong-order-or-count", "routes each call through the interceptor exactly once, outermost wrapper first; kinds without an interceptor go straight to the wrapped channel",
